@@ -210,6 +210,12 @@ def run(rep, tier, seed):
                            "diagnose": diag[-3000:]}, found_input=False)
         else:
             rep.coverage["diagnose"] = diag[-2000:]
+    if tier == "thorough" and built:
+        rc, axioms, summary, dt = C.coqchk("C10")
+        rep.coverage["coqchk"] = {"exit": rc, "axioms": axioms, "summary": summary, "seconds": round(dt, 1)}
+        if rc != 0 or axioms != "<none>":
+            rep.violation("C10:coqchk", "coqchk does not accept Props/C10.vo without axioms: %s" % axioms,
+                          {"kind": "axioms", "coqchk": summary, "theorem": "Props/C10.v"}, found_input=False)
     return rep.finish(build=build, obligations=obl, assumptions_out=assumptions)
 
 
